@@ -57,6 +57,8 @@ func runC14(w *World, r *Report) {
 	r.Rule("R-C14-1", "no request-derived value (URL query/path parts, request body, transaction task fields) flows unsanitised into the statement text of Database.Exec/Query/QueryRow, directly or through helper functions (interprocedural summaries)", 40)
 	r.Rule("R-C14-2", "every exported query generator of tables/parsing returns text into which none of its string / []string / *url.URL parameters flows unsanitised", 8)
 
+	c14SanitizerShape(w, r)
+
 	pkgs := []*packages.Package{w.pkg("internal/server/tables"), w.pkg("internal/server/tables/scripting"), w.pkg("internal/server/tables/parsing")}
 	for _, p := range pkgs {
 		if p == nil {
@@ -311,13 +313,6 @@ func runC14(w *World, r *Report) {
 	if sc := w.ssaFunc(pp, "sortColumn"); sc == nil {
 		r.Anchor("R-C14-3", "parsing.sortColumn")
 	} else {
-		cuts := cutEdges(sc, func(f Fact) bool {
-			c, ok := f.V.(*ssa.Call)
-
-			return ok && f.Kind == "true" && strings.HasSuffix(callID(c.Common()), "parsing.isPlainIdentifier")
-		})
-
-		reachable := reach(sc.Blocks[0], cuts, nil)
 		bad := ""
 
 		for _, ret := range returnsOf(sc) {
@@ -326,7 +321,17 @@ func runC14(w *World, r *Report) {
 				continue
 			}
 
-			if len(cuts) == 0 || reachable[ret.Block()] {
+			// only a test of the very value that is returned counts
+			cuts := cutEdges(sc, func(f Fact) bool {
+				c, ok := f.V.(*ssa.Call)
+				if !ok || f.Kind != "true" || !strings.HasSuffix(callID(c.Common()), "parsing.isPlainIdentifier") {
+					return false
+				}
+
+				return len(c.Call.Args) == 1 && stripValue(c.Call.Args[0]) == stripValue(v)
+			})
+
+			if len(cuts) == 0 || reach(sc.Blocks[0], cuts, nil)[ret.Block()] {
 				bad = w.pos(ret.Pos())
 			}
 		}
